@@ -498,7 +498,19 @@ func visScript(sh *shapeDef, st site, cells []cell, cn func(string) string, bare
 			continue
 		}
 		fmt.Fprintf(&sb, "echo \"@@%d@@\"; try { %s echo \"~R~ok|\", sh($r); } catch (Throwable $e) { echo \"~R~denied|\", get_class($e), \"|\", $e->getMessage(); }", c.ID, call)
-		fmt.Fprintf(&sb, " echo \"~A~\", %s->peek(), \"/\", %s->peek(); %s->reset(); %s->reset();\n", dn, sn, dn, sn)
+		sb.WriteString(" echo \"~A~\"")
+		for _, hc := range sh.classes {
+			if sh.has(hc.role) {
+				fmt.Fprintf(&sb, ", $obj%s->peek(), \"/\"", hc.role)
+			}
+		}
+		sb.WriteString(";")
+		for _, hc := range sh.classes {
+			if sh.has(hc.role) {
+				fmt.Fprintf(&sb, " $obj%s->reset();", hc.role)
+			}
+		}
+		sb.WriteString("\n")
 	}
 	sb.WriteString("echo \"@@END@@\";\n")
 	return sb.String()
@@ -589,15 +601,21 @@ func propIndex(name string) int {
 	return -1
 }
 
-func initialAfter() string {
+func initialAfter(sh *shapeDef) string {
 	var p []string
 	for _, m := range members() {
 		if m.kind == "prop" {
 			p = append(p, initOf(m))
 		}
 	}
-	s := strings.Join(p, ",")
-	return s + "/" + s
+	one := strings.Join(p, ",") + "/"
+	out := ""
+	for _, hc := range sh.classes {
+		if sh.has(hc.role) {
+			out += one
+		}
+	}
+	return out
 }
 
 // effect reports whether the observed cell shows the operation's effect on the member.
@@ -631,13 +649,13 @@ func judge(sh *shapeDef, st site, c *cell, o obsCell) string {
 	exp := allowed(sh, c.M.mod, st.lex)
 	if c.Op == "isset" {
 		// isset is not a read, write or call: only the no-crash clause and "no effect" apply
-		if o.After != initialAfter() {
+		if o.After != initialAfter(sh) {
 			return "effect-after-deny"
 		}
 		return ""
 	}
 	eff := effect(c, o)
-	unchanged := o.After == initialAfter()
+	unchanged := o.After == initialAfter(sh)
 	switch exp {
 	case "open":
 		return ""
